@@ -1,0 +1,48 @@
+//go:build verif
+
+package kmsg
+
+// Verification contracts (comments only), read by /verif/govc. Compiled only with -tags verif; no code.
+
+// ---- C24: key dispatch. Every API key has a request type and a response type that agree on the key and on the
+// maximum version the codec encodes. ----
+// maxVersionOf: the maximum version per key, one table against which BOTH RequestForKey's and ResponseForKey's
+// result types are checked (so they agree with each other). Written out from the request types' MaxVersion methods;
+// a disagreement of either side with it fails that side's obligation.
+//@ spec maxVersionOf(key int16) int = ite(key == 0, 13, ite(key == 1, 18, ite(key == 2, 11, ite(key == 3, 13,
+//@   ite(key == 4, 7, ite(key == 5, 4, ite(key == 6, 8, ite(key == 7, 3, ite(key == 8, 10, ite(key == 9, 10,
+//@   ite(key == 10, 6, ite(key == 11, 9, ite(key == 12, 4, ite(key == 13, 5, ite(key == 14, 5, ite(key == 15, 6,
+//@   ite(key == 16, 5, ite(key == 17, 1, ite(key == 18, 4, ite(key == 19, 7, ite(key == 20, 6, ite(key == 21, 2,
+//@   ite(key == 22, 5, ite(key == 23, 4, ite(key == 24, 5, ite(key == 25, 4, ite(key == 26, 5, ite(key == 27, 2,
+//@   ite(key == 28, 5, ite(key == 29, 3, ite(key == 30, 3, ite(key == 31, 3, ite(key == 32, 4, ite(key == 33, 2,
+//@   ite(key == 34, 2, ite(key == 35, 4, ite(key == 36, 2, ite(key == 37, 3, ite(key == 38, 3, ite(key == 39, 2,
+//@   ite(key == 40, 2, ite(key == 41, 3, ite(key == 42, 2, ite(key == 43, 2, ite(key == 44, 1, ite(key == 45, 1,
+//@   ite(key == 46, 0, ite(key == 47, 0, ite(key == 48, 1, ite(key == 49, 1, ite(key == 50, 0, ite(key == 51, 0,
+//@   ite(key == 52, 2, ite(key == 53, 1, ite(key == 54, 1, ite(key == 55, 2, ite(key == 56, 3, ite(key == 57, 2,
+//@   ite(key == 58, 0, ite(key == 59, 1, ite(key == 60, 2, ite(key == 61, 0, ite(key == 62, 4, ite(key == 63, 1,
+//@   ite(key == 64, 0, ite(key == 65, 0, ite(key == 66, 2, ite(key == 67, 0, ite(key == 68, 1, ite(key == 69, 1,
+//@   ite(key == 70, 0, ite(key == 71, 0, ite(key == 72, 0, ite(key == 73, 0, ite(key == 74, 1, ite(key == 75, 0,
+//@   ite(key == 76, 1, ite(key == 77, 1, ite(key == 78, 2, ite(key == 79, 2, ite(key == 80, 1, ite(key == 81, 0,
+//@   ite(key == 82, 0, ite(key == 83, 0, ite(key == 84, 0, ite(key == 85, 1, ite(key == 86, 0, ite(key == 87, 1,
+//@   ite(key == 88, 0, ite(key == 89, 0, ite(key == 90, 1, ite(key == 91, 0, ite(key == 92, 0,
+//@   -1)))))))))))))))))))))))))))))))))))))))))))))))))))))))))))))))))))))))))))))))))))))))))))))
+//@ spec knownKey(key int16) bool = 0 <= key && key < 93
+
+// r.Key() and r.MaxVersion() below are the methods of the concrete type the function returns at that return
+// statement (each arm returns a freshly made *T): constant functions, read off the code by the verifier.
+//@ func RequestForKey(key int16) (r Request)
+//@   prop C24
+//@   nopanic
+//@   ensures [known-keys-have-a-request] (r != nil) == knownKey(key)
+//@   ensures [request-carries-its-key] r != nil ==> r.Key() == key
+//@   ensures [request-max-version] r != nil ==> int(r.MaxVersion()) == maxVersionOf(key)
+//@ func ResponseForKey(key int16) (r Response)
+//@   prop C24
+//@   nopanic
+//@   ensures [known-keys-have-a-response] (r != nil) == knownKey(key)
+//@   ensures [response-carries-its-key] r != nil ==> r.Key() == key
+//@   ensures [response-max-version-agrees] r != nil ==> int(r.MaxVersion()) == maxVersionOf(key)
+//@ func NameForKey(key int16) (s string)
+//@   prop C24
+//@   nopanic
+//@   ensures [unknown-exactly-for-unknown-keys] (s == "Unknown") == !knownKey(key)
